@@ -18,7 +18,7 @@ RULE = ("class shapes = base class + registered subclass with members of every k
         "non-trivial = the name is a member of the shape or a variant of one")
 ASSUMPTIONS = ["classes with their own __getattr__/metaclass tricks are outside the quantifier", "'refused' = an exception reply of any type (no reply for oneway)",
                "a call-kind request naming an *exposed* property may run that property's getter before being refused"]
-REQUIRED_REACH = ["daemon_interface_ok", "dynamic_exposure_stages_ok", "surplus_argument_requests", "served_ok", "refused_ok", "oneway_checked", "metadata_checked", "nonstring_names", "decoration_refusals", "reregistrations_on_live_connection"]
+REQUIRED_REACH = ["withdrawn_exposure_refused", "daemon_interface_ok", "dynamic_exposure_stages_ok", "surplus_argument_requests", "served_ok", "refused_ok", "oneway_checked", "metadata_checked", "nonstring_names", "decoration_refusals", "reregistrations_on_live_connection"]
 SHARD_TIMEOUT = {"quick": 240, "thorough": 2800}
 
 RESERVED = ["__init__", "__init_subclass__", "__class__", "__module__", "__weakref__", "__call__", "__new__", "__del__", "__repr__", "__str__",
@@ -576,7 +576,27 @@ def dynamic_exposure_phase(fx, sername, rec, r):
             pay = {"dynamic": True, "serializer": sername, "servertype": fx.servertype, "weak": weak, "by": by}
             try:
                 px = None
-                for stage in ("initial", "second-exposed", "third-and-prop-exposed", "after-local-proxy-was-adjusted"):
+                for stage in ("initial", "second-exposed", "third-and-prop-exposed", "after-local-proxy-was-adjusted", "prop-withdrawn-without-reset"):
+                    if stage == "prop-withdrawn-without-reset":
+                        # the application withdraws the exposure of the property again and (so far) has not reset any cache: what is SERVED follows
+                        # the members' own marks at once - the cached list is what is advertised, not a licence
+                        Dyn.prop.fget._pyroExposed = False
+                        c = wire.RawClient(fx.location)
+                        try:
+                            if c.handshake(oid, ser).type != wire.CONNECTOK:
+                                rec.inconc("dynamic exposure: handshake refused")
+                                break
+                            del LOGD[:]
+                            rep = c.invoke(oid, "__getattr__", ("prop",), {}, ser)
+                            rec.case(("dynamic", sername, fx.servertype, weak, by, stage), nontrivial=True)
+                            if not (rep.flags & wire.F_EXC) or LOGD:
+                                rec.violation("unexposed-member-effect:dynamic", "stage %s: the property's exposure was withdrawn, yet reading it %s and its getter ran %d time(s)" % (
+                                    stage, "was refused" if rep.flags & wire.F_EXC else "was answered", len(LOGD)), pay)
+                            else:
+                                rec.count("withdrawn_exposure_refused")
+                        finally:
+                            c.close()
+                        continue
                     if stage == "second-exposed":
                         P.server.expose(Dyn.second)
                     elif stage == "third-and-prop-exposed":
